@@ -48,6 +48,18 @@ enum Policy {
     Call(usize),
     Zero(usize),
     Bytes(usize),
+    /// at write call `call`: accept `take` bytes of the buffer (a short write; none when `take`
+    /// is 0 or the buffer has one byte), answer ONE transient error on the following call
+    /// (kind 0 = WouldBlock, 1 = TimedOut, 2 = Interrupted), then accept everything
+    Transient { call: usize, take: usize, kind: u8 },
+}
+
+fn transient_kind(kind: u8) -> io::ErrorKind {
+    match kind {
+        0 => io::ErrorKind::WouldBlock,
+        1 => io::ErrorKind::TimedOut,
+        _ => io::ErrorKind::Interrupted,
+    }
 }
 
 impl Policy {
@@ -55,7 +67,7 @@ impl Policy {
         Some(match self {
             Policy::All => "all".into(),
             Policy::Trickle => "trickle".into(),
-            Policy::Interrupt => return None,
+            Policy::Interrupt | Policy::Transient { .. } => return None,
             Policy::Call(k) => format!("call:{k}"),
             Policy::Zero(k) => format!("zero:{k}"),
             Policy::Bytes(n) => format!("bytes:{n}"),
@@ -66,6 +78,13 @@ impl Policy {
             "all" => Policy::All,
             "trickle" => Policy::Trickle,
             "interrupt" => Policy::Interrupt,
+            _ if s.starts_with("transient:") => {
+                let v: Vec<usize> = s.split(':').skip(1).filter_map(|x| x.parse().ok()).collect();
+                if v.len() != 3 {
+                    return None;
+                }
+                Policy::Transient { call: v[0], take: v[1], kind: v[2] as u8 }
+            }
             _ => {
                 let (a, b) = s.split_once(':')?;
                 let n: usize = b.parse().ok()?;
@@ -81,6 +100,7 @@ impl Policy {
     fn name(&self) -> String {
         match self {
             Policy::Interrupt => "interrupt".into(),
+            Policy::Transient { call, take, kind } => format!("transient:{call}:{take}:{kind}"),
             p => p.wire().unwrap(),
         }
     }
@@ -95,11 +115,14 @@ struct PWriter {
     /// length accepted by each answered call
     trace: Vec<usize>,
     refused: bool,
+    /// Transient: the error is due on the next call / has been given
+    pending: bool,
+    fired: bool,
 }
 
 impl PWriter {
     fn new(policy: Policy) -> Self {
-        PWriter { policy, calls: 0, accepted: Vec::new(), trace: Vec::new(), refused: false }
+        PWriter { policy, calls: 0, accepted: Vec::new(), trace: Vec::new(), refused: false, pending: false, fired: false }
     }
 }
 
@@ -129,6 +152,26 @@ impl Write for PWriter {
                     return Ok(0);
                 }
                 buf.len()
+            }
+            Policy::Transient { call, take, kind } => {
+                if self.pending {
+                    self.pending = false;
+                    self.fired = true;
+                    self.refused = kind != 2;
+                    return Err(io::Error::new(transient_kind(kind), "try again"));
+                }
+                if !self.fired && c == call && !buf.is_empty() {
+                    if take > 0 && buf.len() > 1 {
+                        self.pending = true;
+                        take.min(buf.len() - 1)
+                    } else {
+                        self.fired = true;
+                        self.refused = kind != 2;
+                        return Err(io::Error::new(transient_kind(kind), "try again"));
+                    }
+                } else {
+                    buf.len()
+                }
             }
             Policy::Bytes(n) => {
                 let left = n - self.accepted.len();
@@ -843,7 +886,9 @@ fn fixed_cases() -> Vec<(Case, Vec<Entry>)> {
              {{% set m2 = {{...outer, \"zz\": x0, ...m, \"aa\": x1}} %}}{{{{ m2 | values }}}}|{{{{ m2 | keys }}}}|{{% for k, v in m2 %}}{{{{ k }}}}{{% endfor %}}|{{{{ m2 }}}}|\
              {{% set g = items | group_by(attribute=\"g\") %}}{{{{ g }}}}|{{{{ g | keys }}}}|{{{{ g | values }}}}|{{% for k, v in g %}}{{{{ k }}}}:{{{{ v | length }}}};{{% endfor %}}|\
              {{{{ [m, m2] }}}}|{{{{ __tera_context }}}}|\
-             {{% set ms = [{{\"a\": x0, \"b\": x1}}, {{\"b\": x1, \"a\": x0}}, {{\"a\": x0, \"b\": x1}}, {{\"a\": x1, \"b\": x0}}, {{\"a\": x0, \"b\": x1}}, {{\"b\": x0, \"a\": x1}}, {{\"a\": x0, \"b\": x1, \"c\": x2}}, {{\"c\": x2, \"a\": x0, \"b\": x1}}, {{\"a\": x0, \"b\": x2}}, {{\"a\": x0, \"b\": x1}}] %}}{{{{ ms | unique }}}}|{{{{ ms | unique | length }}}}|{{{{ [...ms, ...ms] | unique | length }}}}|{{{{ sermaps | unique | length }}}}|{{{{ sermaps | unique }}}}"
+             {{% set ms = [{{\"a\": x0, \"b\": x1}}, {{\"b\": x1, \"a\": x0}}, {{\"a\": x0, \"b\": x1}}, {{\"a\": x1, \"b\": x0}}, {{\"a\": x0, \"b\": x1}}, {{\"b\": x0, \"a\": x1}}, {{\"a\": x0, \"b\": x1, \"c\": x2}}, {{\"c\": x2, \"a\": x0, \"b\": x1}}, {{\"a\": x0, \"b\": x2}}, {{\"a\": x0, \"b\": x1}}] %}}{{{{ ms | unique }}}}|{{{{ ms | unique | length }}}}|{{{{ [...ms, ...ms] | unique | length }}}}|{{{{ sermaps | unique | length }}}}|{{{{ sermaps | unique }}}}|\
+             {{% set gm = mixrecs | group_by(attribute=\"k\") %}}{{{{ gm }}}}|{{{{ gm | keys }}}}|{{{{ gm | values }}}}|{{{{ gm | pairs }}}}|{{% for k, v in gm %}}{{{{ k }}}}:{{{{ v | length }}}};{{% endfor %}}|\
+             {{% set sm = {{...mixa, \"s\": x0, ...mixb}} %}}{{{{ sm }}}}|{{{{ sm | keys }}}}|{{{{ sm | values }}}}|{{% for k, v in sm %}}{{{{ k }}}}={{{{ v }}}};{{% endfor %}}|{{{{ [sm, gm] }}}}|{{{{ {{...gm, ...sm}} | keys }}}}"
         );
         let tpl: &'static str = Box::leak(tpl.into_boxed_str());
         let mut ctx: Vec<(&str, Value)> = Vec::new();
@@ -883,6 +928,31 @@ fn fixed_cases() -> Vec<(Case, Vec<Entry>)> {
             })
             .collect();
         ctx.push(("sermaps", Value::from(sermaps)));
+        // keys that MIX unsigned keys (u64 fields) with negative i64 keys, in maps built during
+        // the render (group_by, spreads): the key order must not depend on the hash order
+        let mixrecs: Vec<Value> = [5i64, -1, 0, -7, 3, -2, 5, -1, 9, 12, -30, 7]
+            .iter()
+            .enumerate()
+            .map(|(i, k)| {
+                let mut e = tera::Map::new();
+                e.insert("k".into(), if *k >= 0 { Value::from(*k as u64) } else { Value::from(*k) });
+                e.insert("i".into(), Value::from(i as u64));
+                Value::from(e)
+            })
+            .collect();
+        ctx.push(("mixrecs", Value::from(mixrecs)));
+        let mut mixa = tera::Map::new();
+        let mut mixb = tera::Map::new();
+        for k in [5u64, 0, 11, 2, u64::MAX] {
+            mixa.insert(tera::value::Key::U64(k), Value::from(format!("u{k}")));
+        }
+        for k in [-1i64, -9, -3, i64::MIN, -4] {
+            mixb.insert(tera::value::Key::I64(k), Value::from(format!("i{k}")));
+        }
+        mixb.insert(tera::value::Key::U64(7), Value::from("u7"));
+        mixa.insert(tera::value::Key::I64(-6), Value::from("i-6"));
+        ctx.push(("mixa", Value::from(mixa)));
+        ctx.push(("mixb", Value::from(mixb)));
         add(
             &[("purity.html", tpl), ("purity.txt", tpl)],
             ctx,
@@ -1131,6 +1201,17 @@ fn expected(refr: &Reference, p: &Policy) -> (Option<&'static str>, Vec<u8>) {
                 (None, refr.full.clone())
             }
         }
+        Policy::Transient { call, take, kind } => {
+            // `write_all` retries Interrupted itself (control); every other kind is an error of
+            // the render: what was accepted stays a prefix, nothing is ever sent twice
+            if *call >= refr.trace.len() || *kind == 2 {
+                (None, refr.full.clone())
+            } else {
+                let before: usize = refr.trace[..*call].iter().sum();
+                let k = if *take > 0 && refr.trace[*call] > 1 { (*take).min(refr.trace[*call] - 1) } else { 0 };
+                (Some(if *kind == 0 { "io:WouldBlock" } else { "io:TimedOut" }), refr.full[..before + k].to_vec())
+            }
+        }
         Policy::Bytes(n) => {
             if *n < refr.full.len() {
                 (Some("io:BrokenPipe"), refr.full[..*n].to_vec())
@@ -1176,6 +1257,18 @@ fn policies_for(refr: &Reference, cap_calls: usize, cap_bytes: usize, rng: &mut 
     }
     for k in [0, n / 2, n.saturating_sub(1), n] {
         ps.push(Policy::Zero(k));
+    }
+    // transient errors after a short write, at every call (sampled above 48 calls)
+    let calls: Vec<usize> = if n <= 48 { (0..=n).collect() } else { (0..24).chain((0..24).map(|_| rng.below(n + 1))).collect() };
+    for call in calls {
+        for take in [0usize, 1, 3, 1 << 20] {
+            for kind in 0u8..3 {
+                if kind != 0 && take != 1 {
+                    continue;
+                }
+                ps.push(Policy::Transient { call, take, kind });
+            }
+        }
     }
     if l + 1 <= cap_bytes {
         ps.extend((0..=l).map(Policy::Bytes));
